@@ -306,6 +306,18 @@ probe_restore.rule_id = "C13.PROBE-RESTORE"
 def who_writes_points(repo: Repo) -> RuleRun:
     r = RuleRun(PROP, "C13.WHO-WRITES-POINTS", floor=8, what="ownership of grid.points; GridBase.update evaluated abstractly; its call sites")
     allowed = {"optimize.grid.GridBase.update", "optimize.smoother.SmootherBase.smooth"}
+    # a private helper of the grid that is called from nowhere but an allowed writer (or itself) writes on that writer's behalf
+    opt_fns = [f_ for f_ in repo.all_functions() if f_.module.name.startswith("classy_blocks.optimize")]
+    changed = True
+    while changed:
+        changed = False
+        for cand in opt_fns:
+            if cand.qualname in allowed or not cand.name.startswith("_") or cand.name.startswith("__") or cand.cls is None or cand.cls.name != "GridBase":
+                continue
+            sites = [(f_, c_) for f_ in opt_fns for c_ in ast.walk(f_.node) if isinstance(c_, ast.Call) and isinstance(c_.func, ast.Attribute) and c_.func.attr == cand.name]
+            if sites and all(f_.qualname in allowed or f_ is cand for f_, _ in sites):
+                allowed.add(cand.qualname)
+                changed = True
     n_stores = 0
     for fn in repo.all_functions():
         if not fn.module.name.startswith("classy_blocks.optimize"):
@@ -588,7 +600,7 @@ def links_accumulate(repo: Repo, prop: str = PROP, rule: str = "C13.LINKS-ACCUMU
     j = Obj("leader-junction", cls=jcls)
     j.set("links", [])
     j.set("index", 0)
-    links = [Obj(f"link{k}", follower=Sym(f"follower-position{k}")) for k in range(3)]
+    links = [Obj(f"link{k}", follower=Sym(f"follower-position{k}"), leader=[Sym(f"old-leader{k}-x"), Sym(f"old-leader{k}-y"), Sym(f"old-leader{k}-z")]) for k in range(3)]
 
     def hook(ev, call: ast.Call, name):
         if (name or "").split(".")[-1] == "IndexedLink":
@@ -610,7 +622,14 @@ def links_accumulate(repo: Repo, prop: str = PROP, rule: str = "C13.LINKS-ACCUMU
     grid = Obj("grid", cls=repo.cls("optimize.grid.GridBase"))
     pts = {k: Sym(f"p{k}") for k in (0, 10, 11, 12)}
     grid.set("points", pts)
-    grid.set("junctions", {0: j})
+    followers = {}
+    for k in (10, 11, 12):
+        fj = Obj(f"follower-junction{k}", cls=jcls)
+        fj.set("links", [])
+        fj.set("index", k)
+        fj.set("quality", Sym(f"jq{k}"))
+        followers[k] = fj
+    grid.set("junctions", {0: j, **followers})
     grid.set("quality", Sym("quality"))
     j.set("quality", Sym("jq"))
     try:
@@ -621,11 +640,100 @@ def links_accumulate(repo: Repo, prop: str = PROP, rule: str = "C13.LINKS-ACCUMU
     want = {0: "<new-leader-position>", 10: "<follower-position0>", 11: "<follower-position1>", 12: "<follower-position2>"}
     ok = all(moved.get(k, "").strip("<>") == v.strip("<>") for k, v in want.items()) and all(ln.has("updated") for ln in links)
     r.check(ok, upd, "GridBase.update writes the leader and all three followers", f"GridBase.update on a leader with three followers leaves the points as {moved}; expected {want} with every link updated", upd.node, key="update-all")
-    r.check(all(ln.get("leader") == Sym("new-leader-position") for ln in links if ln.has("leader")) and all(ln.has("leader") for ln in links), upd, "every link is told the leader's new position", "GridBase.update does not hand the new leader position to every link of the junction", upd.node, key="leader-told")
+    told = lambda v: v == Sym("new-leader-position") or (isinstance(v, list) and all(x == Sym("new-leader-position") or "new-leader-position" in repr(x) for x in v))  # noqa: E731
+    r.check(all(told(ln.get("leader")) for ln in links if ln.has("leader")) and all(ln.has("leader") for ln in links), upd, "every link is told the leader's new position", "GridBase.update does not hand the new leader position to every link of the junction", upd.node, key="leader-told")
     return r
 
 
 links_accumulate.rule_id = "C13.LINKS-ACCUMULATE"
+
+
+def link_chain(repo: Repo, prop: str = PROP, rule: str = "C13.LINK-CHAIN") -> RuleRun:
+    """'linked vertices keep their translation, rotation or mirror relation to their leader' - whoever the leader is: a follower may
+    itself lead another vertex (a column of vertices that must move together, linked pairwise). Abstract run of GridBase.update on
+    three junctions linked 0 -> 1 -> 2 (each link's update() modelled as 'follower := image of the leader it was handed'): after the
+    first junction moves, the second link has been handed the NEW position of the middle point and the last point holds its image.
+    Two junctions that lead each other (a mirror pair linked both ways) must still terminate."""
+    r = RuleRun(prop, rule, floor=3, what="GridBase.update moves the followers of a moved follower as well (links 0 -> 1 -> 2), and terminates on a pair linked both ways")
+    upd = repo.func("optimize.grid.GridBase.update")
+    jcls = repo.cls("optimize.junction.Junction")
+
+    def hook(ev, call: ast.Call, name):
+        if isinstance(call.func, ast.Attribute) and call.func.attr == "update" and not call.args:
+            o = ev.eval(call.func.value)
+            if isinstance(o, Obj) and o._name.startswith("link"):
+                leader = o.get("leader") if o.has("leader") else Sym("stale")
+                o.set("follower", Sym(f"{o._name}({repr(leader).strip('<>')})"))
+                o.set("updates", (o.get("updates") if o.has("updates") else 0) + 1)
+                return None
+        return NO_MATCH
+
+    def build(pairs):
+        grid = Obj("grid", cls=repo.cls("optimize.grid.GridBase"))
+        idx = sorted({i for p in pairs for i in p})
+        grid.set("points", {k: Sym(f"p{k}") for k in idx})
+        grid.set("quality", Sym("quality"))
+        js, links = {}, {}
+        for k in idx:
+            j = Obj(f"junction{k}", cls=jcls)
+            j.set("index", k)
+            j.set("links", [])
+            j.set("quality", Sym(f"jq{k}"))
+            js[k] = j
+        for a, b in pairs:
+            ln = Obj(f"link{a}{b}", follower=Sym(f"p{b}"), leader=Sym(f"p{a}"))
+            links[(a, b)] = ln
+            js[a].get("links").append(Obj(f"indexed{a}{b}", link=ln, follower_index=b))
+        grid.set("junctions", js)
+        return grid, links
+
+    grid, links = build([(0, 1), (1, 2)])
+    try:
+        ev = Evaluator(repo=repo, module=upd.module, call_hook=hook)
+        ev.call_funcinfo(upd, [grid, 0, Sym("new")])
+    except (Raised, NotEvaluable) as err:
+        raise AnalysisError(f"GridBase.update not evaluable on a chain of links: {err}") from err
+    pts = {k: repr(v).strip("<>") for k, v in grid.get("points").items()}
+    r.check(pts[0] == "new" and pts[1] == "link01(new)", upd, "leader and its follower moved", f"GridBase.update(0, new) on links 0 -> 1 -> 2 leaves points {pts}", upd.node, key="first-link")
+    r.check(
+        pts[2] == "link12(link01(new))",
+        upd,
+        "the follower's follower holds the image of the middle point's new position",
+        f"GridBase.update(0, new) on links 0 -> 1 -> 2 leaves point 2 at '{pts[2]}' (expected link12(link01(new))): only the direct followers of the moved junction are updated, a link whose leader has no clamp of "
+        "its own is never evaluated - FreeClamp(A), TranslationLink(A, B), TranslationLink(B, C): B follows A, C stays where it was and the relation C - B is lost",
+        upd.node,
+        key="second-link",
+    )
+    grid2, links2 = build([(0, 1), (1, 0)])
+    import sys
+
+    lim = sys.getrecursionlimit()
+    try:
+        sys.setrecursionlimit(max(lim, 3000))
+        ev = Evaluator(repo=repo, module=upd.module, call_hook=hook)
+        ev.max_depth = 60 if hasattr(ev, "max_depth") else None
+        ev.call_funcinfo(upd, [grid2, 0, Sym("new")])
+        ended = True
+    except (RecursionError, NotEvaluable) as err:
+        ended = False
+        why = str(err)[:80]
+    except Raised as err:
+        raise AnalysisError(f"GridBase.update raised on a pair linked both ways: {err}") from err
+    finally:
+        sys.setrecursionlimit(lim)
+    pts2 = {k: repr(v).strip("<>") for k, v in grid2.get("points").items()}
+    r.check(
+        ended and pts2[0] == "new" and pts2[1] == "link01(new)",
+        upd,
+        "a pair linked both ways: the moved point stays where it was put, its partner follows once",
+        (f"GridBase.update(0, new) on a pair linked both ways leaves points {pts2}" if ended else f"GridBase.update(0, new) on a pair linked both ways (SymmetryLink(A, B) and SymmetryLink(B, A)) does not terminate ({why})"),
+        upd.node,
+        key="both-ways",
+    )
+    return r
+
+
+link_chain.rule_id = "C13.LINK-CHAIN"
 
 
 def boundary(repo: Repo) -> RuleRun:
@@ -669,4 +777,4 @@ def rotation_exact(repo: Repo) -> RuleRun:
 rotation_exact.rule_id = "C13.ROTATION-EXACT"
 
 
-RULES = [rollback, probe_restore, who_writes_points, backport_rule, warning_filter, affine_kinds, link_relation, owns_geometry, angle_dimension, float_stores, backport_table, mirror_matrix, grid_quality, symmetry_exact, match_tolerance, links_accumulate, boundary, no_alias_snapshot, radial_exact, rotation_exact]
+RULES = [rollback, probe_restore, who_writes_points, backport_rule, warning_filter, affine_kinds, link_relation, owns_geometry, angle_dimension, float_stores, backport_table, mirror_matrix, grid_quality, symmetry_exact, match_tolerance, links_accumulate, boundary, no_alias_snapshot, radial_exact, rotation_exact, link_chain]
